@@ -14,6 +14,7 @@ S4 == 10000         \* coarse quantisation for the irrational closed forms
 ValTol == 1         \* |y - exact*S| <= ValTol   (1e-6 absolute: float64 error is ~1e-15, rint adds 1/2)
 IrrTol == 6         \* units of 1e-4: truncation of sqrt(E)*1e4 (<= 3 units after scaling by t|v|/E <= 3) + roundings
 IdemTol == 1        \* |op(out) - out| <= 1e-6
+IpTol == 20         \* |<Q, M> - nuclear norm| <= 2e-5 (entries of M up to 24, float error ~1e-14)
 FeasTol == 2        \* slack of the feasibility measurements, units of 1e-6 per entry
 MaxY == 4000000     \* vector outputs beyond 4.0 are rejected before any arithmetic (32-bit guard)
 MaxYM == 50000000   \* same for the matrix operators (|entries| <= 24 on the domain)
@@ -135,7 +136,10 @@ MatVerdict(e) ==
          \* by the harness on the floats (max-abs entry of Q^T Q - I or Q Q^T - I), units of 1e-6
          ELSE IF e.op = "procrustes" /\ (~IsFin(run.orth) \/ run.orth > FeasTol) THEN "Feasible"
          ELSE IF e.op = "svt" /\ ~MatClose(run.out, SvtNum(e), SvtDen(e)) THEN "Value"
-         ELSE IF e.op = "procrustes" /\ ~MatClose(run.out, ProcNum(e), ProcDen(e)) THEN "Value"
+         \* full rank: the polar factor is unique.  Rank-deficient: any Q with orthonormal columns/rows (clause Feasible
+         \* above) and <Q, M> = nuclear norm is a nearest one; <Q, M> is measured by the harness (units of 1e-6)
+         ELSE IF e.op = "procrustes" /\ FullRank(e) /\ ~MatClose(run.out, ProcNum(e), ProcDen(e)) THEN "Value"
+         ELSE IF e.op = "procrustes" /\ ~FullRank(e) /\ (~IsFin(run.ip) \/ AbsI(run.ip - NuclearNorm(e) * S) > IpTol) THEN "Value"
          ELSE IF e.op = "procrustes" /\ (run.again_raised \/ ~IsIntMat(run.again, e.m, e.n)) THEN "IdempotentFinite"
          ELSE IF e.op = "procrustes" /\ (\E i \in 1..e.m : \E j \in 1..e.n : AbsI(run.again[i][j] - run.out[i][j]) > IdemTol)
               THEN "Idempotent"
